@@ -7,7 +7,9 @@
 package skipmon
 
 import (
+	"bytes"
 	"fmt"
+	"math"
 	"os"
 	"slices"
 	"sort"
@@ -115,6 +117,33 @@ func newDriver(order string) driver {
 		// decimal strings: lexicographic order differs from numeric order ("10" < "9")
 		sk := func(k int) string { return "k" + itoa(k) }
 		return &drv[string]{m: skiplist.New[string, int](ord.String), key: sk, name: sk, lt: func(a, b int) bool { return sk(a) < sk(b) }}
+	case "f64":
+		// float keys under the IEEE total order (by sign and bits): -0.0 and +0.0 are different keys although == says equal
+		fk := func(k int) float64 {
+			switch k % 4 {
+			case 0:
+				return float64(k / 4)
+			case 1:
+				return -float64(k / 4) // k = 1 gives -0.0
+			case 2:
+				return float64(k) + 0.5
+			}
+			return -1 / float64(k)
+		}
+		bits := func(f float64) int64 {
+			b := int64(math.Float64bits(f))
+			if b < 0 {
+				b = math.MinInt64 - b - 1 // negative floats: reversed and below all positive ones, -0.0 (-1) just below +0.0 (0)
+			}
+			return b
+		}
+		return &drv[float64]{m: skiplist.New[float64, int](ord.From[float64](func(a, b float64) ord.Ordering { return cmpInt(int(bits(a)), int(bits(b))) })),
+			key: fk, name: func(k int) string { return fmt.Sprint(fk(k)) }, lt: func(a, b int) bool { return bits(fk(a)) < bits(fk(b)) }}
+	case "ibytes":
+		// interface keys whose dynamic values are byte slices (not comparable with ==), ordered by bytes.Compare
+		bk := func(k int) any { return bkey(fmt.Sprintf("b%03d", k)) }
+		return &drv[any]{m: skiplist.New[any, int](ord.From[any](func(a, b any) ord.Ordering { return ord.Ordering(bytes.Compare(a.(bkey), b.(bkey))) })),
+			key: bk, name: func(k int) string { return fmt.Sprintf("b%03d", k) }, lt: func(a, b int) bool { return fmt.Sprintf("b%03d", a) < fmt.Sprintf("b%03d", b) }}
 	case "pct":
 		// string keys that contain a per cent sign (percentages, URL-escaped identifiers)
 		sk := func(k int) string {
@@ -147,6 +176,11 @@ func newDriver(order string) driver {
 }
 
 type account struct{ id int }
+
+// bkey: a slice type (values are not comparable with ==) that prints as one word
+type bkey []byte
+
+func (b bkey) String() string { return string(b) }
 
 type label int
 
@@ -364,7 +398,7 @@ func TestRun(t *testing.T) {
 		return
 	}
 	bigCases(t)
-	orders := []string{"int", "rev", "str", "mod", "ptr", "iface", "pct"}
+	orders := []string{"int", "rev", "str", "mod", "ptr", "iface", "pct", "f64", "ibytes"}
 	// ---- exhaustive: all histories over 3 keys
 	depth := common.Pick(5, 6)
 	hseeds := common.Pick(6, 20)
